@@ -764,6 +764,27 @@ def _stable_expr0(e, stable, mutated, attr_stores, self_unstable):
     return False
 
 
+def _regionwise(fn, v, stores, loads):
+    """a name bound several times is still 'single assignment' per region when every binding is a plain statement-level
+    assignment and every load lies, in the same block, after exactly one binding and before the next one (no load can see two)"""
+    regions = []
+    for blk in _blocks(fn):
+        for i, st in enumerate(blk):
+            if isinstance(st, ast.Assign) and len(st.targets) == 1 and isinstance(st.targets[0], ast.Name) and st.targets[0].id == v:
+                ids = set()
+                for s2 in blk[i + 1:]:
+                    if any(isinstance(x, ast.Name) and x.id == v and isinstance(x.ctx, ast.Store) for x in ast.walk(s2)):
+                        break
+                    ids |= {id(x) for x in ast.walk(s2)}
+                regions.append((st, ids))
+    if len(regions) != len(stores.get(v, [])):
+        return False          # some binding is not a plain statement-level assignment (loop target, with-as, augmented, ...)
+    for u in loads.get(v, []):
+        if sum(1 for _st, ids in regions if id(u) in ids) != 1:
+            return False
+    return True
+
+
 def _named_values(fn, self_unstable=None):
     n_done = 0
     for _ in range(6):
@@ -804,12 +825,16 @@ def _named_values(fn, self_unstable=None):
                 if not (isinstance(st, ast.Assign) and len(st.targets) == 1 and isinstance(st.targets[0], ast.Name)):
                     continue
                 v = st.targets[0].id
-                if len(stores.get(v, [])) != 1 or v in params or v in nested_names:
+                if v in params or v in nested_names:
+                    continue
+                multi = len(stores.get(v, [])) != 1
+                if multi and not _regionwise(fn, v, stores, loads):
                     continue
                 if isinstance(st.value, (ast.Constant,)) and not isinstance(st.value.value, (str, bytes, int)):
                     continue
                 stable = never_stored | free
-                if not _stable_expr(st.value, stable, mutated, attr_stores, self_unstable):
+                # mutation of the operands is judged for the statements between the definition and its last use (below)
+                if not _stable_expr(st.value, stable, set(), set(), self_unstable):
                     continue
                 if sum(1 for _x in ast.walk(st.value)) > 25:
                     continue
@@ -818,8 +843,35 @@ def _named_values(fn, self_unstable=None):
                     continue
                 later = set()
                 for s2 in blk[i + 1:]:
+                    if multi and any(isinstance(x, ast.Name) and x.id == v and isinstance(x.ctx, ast.Store) for x in ast.walk(s2)):
+                        break
                     later |= {id(x) for x in ast.walk(s2)}
+                if multi:
+                    uses = [u for u in uses if id(u) in later]       # the loads of this definition's own region
+                    if not uses:
+                        continue
                 if not all(id(u) in later for u in uses):
+                    continue
+                # no statement from the definition up to the last use changes an object the expression reads
+                use_ids = {id(u) for u in uses}
+                last = max((k for k in range(i + 1, len(blk)) if any(id(x) in use_ids for x in ast.walk(blk[k]))), default=i)
+                rhs_names = {x.id for x in ast.walk(st.value) if isinstance(x, ast.Name)}
+                rhs_attrs = {x.attr for x in ast.walk(st.value) if isinstance(x, ast.Attribute)}
+                dirty = False
+                for k in range(i + 1, last + 1):
+                    for x in ast.walk(blk[k]):
+                        if isinstance(x, (ast.Subscript, ast.Attribute)) and isinstance(x.ctx, (ast.Store, ast.Del)):
+                            b_ = x.value
+                            while isinstance(b_, (ast.Subscript, ast.Attribute)):
+                                b_ = b_.value
+                            if (isinstance(b_, ast.Name) and b_.id in rhs_names) or (isinstance(x, ast.Attribute) and x.attr in rhs_attrs):
+                                dirty = True
+                        elif isinstance(x, ast.Call) and isinstance(x.func, ast.Attribute) and x.func.attr in MUTATORS and isinstance(x.func.value, ast.Name) and x.func.value.id in rhs_names:
+                            dirty = True
+                        elif isinstance(x, ast.Name) and isinstance(x.ctx, ast.Store) and x.id in rhs_names:
+                            dirty = True
+                # a use inside a loop body that also mutates the operands later in the same iteration would see the old value: require the loop-free case
+                if dirty:
                     continue
                 # inside a loop the defining statement runs again each iteration: fine, uses follow it in the same block
                 for u in uses:
@@ -922,6 +974,26 @@ def _loops_to_comprehensions(fn):
     return n_done
 
 
+# ------------------------------------------------------------------ N7 nested ifs without else -> one conjunction
+
+def _merge_nested_ifs(fn):
+    n_done = 0
+    changed = True
+    while changed:
+        changed = False
+        for blk in _blocks(fn):
+            for i, st in enumerate(blk):
+                if isinstance(st, ast.If) and not st.orelse:
+                    inner = [x for x in st.body if not isinstance(x, ast.Pass)]
+                    if len(inner) == 1 and isinstance(inner[0], ast.If) and not inner[0].orelse:
+                        new = ast.If(test=ast.BoolOp(op=ast.And(), values=[st.test, inner[0].test]), body=inner[0].body, orelse=[])
+                        ast.copy_location(new.test, st.test)
+                        blk[i] = ast.copy_location(new, st)
+                        n_done += 1
+                        changed = True
+    return n_done
+
+
 # ------------------------------------------------------------------ N3 conditional expressions at statement level
 
 def _expand_ifexp(fn):
@@ -982,5 +1054,6 @@ def normalize(modname, tree):
             stats["named_conditions"] += _named_conditions(n)
             stats["named_values"] = stats.get("named_values", 0) + _named_values(n, unstable.get(n))
             stats["named_conditions"] += _named_conditions(n)
+            stats["merged_ifs"] = stats.get("merged_ifs", 0) + _merge_nested_ifs(n)
     ast.fix_missing_locations(tree)
     return stats
